@@ -78,6 +78,31 @@ class C01(L1Prop):
                     ops += [f"fault {rng.randint(1, 6)}:before", "as 1 latest:1 b:5", "as 1 latest:1 b:6"]
             ops += ["walk 1", "reopen", "walk 1"]
             out.append(Case(f"c01-fault-{k}", ops, {"faults": True, "only": "sqlite"}))   # the in-memory test backend has no rollback
+        # several server instances on one directory, used in turn; the chain is walked through each
+        for k in range(sizes(tier, 16, 150)):
+            nc = rng.choice([1, 2])
+            ops = [f"ensure {c}" for c in range(1, nc + 1)]
+            ni = rng.choice([2, 3])
+            for step in range(rng.randint(5, 16)):
+                if rng.random() < 0.6:
+                    ops.append(f"inst {rng.randrange(ni)}")
+                c = rng.randint(1, nc)
+                r = rng.random()
+                if r < 0.7:
+                    ops.append(f"av {c} {rng.choice(['latest:%d' % c] * 6 + ['nil', 'anc:%d:1' % c])} b:{step}")
+                elif r < 0.85:
+                    ops.append(f"gcv {c} {rng.choice(['latest', 'anc'])}:{c}:1")
+                else:
+                    ops.append(f"as {c} latest:{c} b:9")
+                if rng.random() < 0.35:
+                    # written through one instance, extended through another, then the first one is
+                    # asked for the child of what IT wrote last
+                    a, b = rng.sample(range(ni), 2)
+                    ops += [f"inst {a}", f"av {c} latest:{c} b:{step},1", f"inst {b}", f"av {c} latest:{c} b:{step},2",
+                            f"inst {a}", f"gcv {c} anc:{c}:1"]
+            for i in range(ni):
+                ops += [f"inst {i}"] + [f"walk {c}" for c in range(1, nc + 1)]
+            out.append(Case(f"c01-inst-{k}", ops, {"only": "sqlite"}))
         return out
     def relevant(self, i, trace):
         o, ri, rm = trace[i]
@@ -104,6 +129,11 @@ class C01(L1Prop):
                 if "REUSED-ID" in ri:
                     fails.append(f"op {i}: version id reused")
                 lst.append((added_id(ri), op.p))
+            if op.kind == "gcv" and resp_kind(ri) in ("notfound", "gone"):
+                # not-found is the answer at the latest version only
+                hit = [v for (v, p) in acc.get(op.c, []) if p == op.p]
+                if hit:
+                    fails.append(f"op {i}: asking for the child of {op.p} (client {op.c}) answered {resp_kind(ri)} although version {hit[0]} was accepted on it: the chain cannot be walked past {op.p}")
             if op.kind == "mark" and op.args[0] == "walk":
                 c = int(op.args[1])
                 j = i + 1
@@ -280,6 +310,26 @@ class C02(L1Prop):
                     continue
                 ops = pre + ["dumpall", f"http POST av hyph={par} hyph=1 history b:{10 + i},1", "dumpall"]
                 out.append(Case(f"c02-h{k}-rt{i}", ops, {"http": True}, mode="http"))
+        # an AddVersion whose storage step fails (at the write or at the commit) is followed by the
+        # client's retry and by a stale request: both are still decided by the STORED latest version
+        for k in range(sizes(tier, 10, 80)):
+            n = rng.randint(1, 4)
+            ops = ["ensure 1"] + [f"av 1 {'nil' if i == 0 else 'latest:1'} b:1,{i}" for i in range(n)]
+            for j in range(rng.randint(1, 3)):
+                plan = rng.choice(["3:before", "2:before", "2:after", "1:before"])
+                ops += [f"fault {plan}", f"av 1 latest:1 b:5,{j}"]
+                if rng.random() < 0.5:
+                    ops += ["dumpall", f"av 1 {rng.choice(['nil', 'fresh', 'anc:1:1'])} b:6,{j}", "dumpall"]
+                ops += ["dumpall", f"av 1 latest:1 b:7,{j}", "dumpall"]
+            out.append(Case(f"c02-fault-{k}", ops, {"only": "sqlite", "faults": True}))
+        # several server instances on one directory, used in turn
+        for k in range(sizes(tier, 12, 100)):
+            ops = ["ensure 1"]
+            for step in range(rng.randint(5, 14)):
+                ops.append(f"inst {rng.randrange(3)}")
+                par = rng.choice(["latest:1"] * 5 + ["nil", "anc:1:1", "fresh"])
+                ops += ["dumpall", f"av 1 {par} b:{step},{k % 250}", "dumpall"]
+            out.append(Case(f"c02-inst-{k}", ops, {"only": "sqlite"}))
         return out
     def relevant(self, i, trace):
         o, ri, rm = trace[i]
@@ -439,6 +489,16 @@ class C08(L1Prop):
             for kk in (1, 2, 3):
                 ops += [f"fault {kk}:before", "gcv 1 latest:1", f"fault {kk}:before", "gcv 1 fresh"]
             out.append(Case(f"c08-fault-{k}", ops, {"faults": True, "only": "sqlite"}))
+        # several server instances on one directory, used in turn: the pair is asked of one instance
+        # right after another instance has written
+        for k in range(sizes(tier, 12, 100)):
+            ops = ["ensure 1"]
+            for step in range(rng.randint(4, 12)):
+                ops += [f"inst {rng.randrange(3)}", f"av 1 latest:1 b:{step}"]
+                if rng.random() < 0.7:
+                    spec = rng.choice(["latest:1", "anc:1:1", "anc:1:2", "nil"])
+                    ops += [f"inst {rng.randrange(3)}", f"gcv 1 {spec}", f"av 1 {spec} b:77,{step}"]
+            out.append(Case(f"c08-inst-{k}", ops, {"only": "sqlite"}))
         return out
     def relevant(self, i, trace):
         o, ri, rm = trace[i]
